@@ -29,6 +29,7 @@ const (
 	BSilent     = "silent"       // handshake, then never answers
 	BGarbage    = "garbage"      // sends garbage bytes after the handshake
 	BFlap       = "flap"         // disconnects every few hundred ms
+	BSquat      = "inv-squatter" // announces every new block by inv BEFORE the honest peers do and never answers getheaders
 	BBlink      = "blink"        // hangs up within a millisecond of every handshake, announcing a height above the chain
 	BNoCF       = "no-cf"        // does not offer compact-filter service
 	BNoWitness  = "no-witness"   // does not offer witness service
@@ -153,6 +154,18 @@ func PlanFromSeed(seed int64, k int) Plan {
 		p.FirstPeer = 0
 		p.Extend, p.ReorgDepth = 0, 0
 	}
+	if k == 9 {
+		// A fixed scenario: a peer that announces every new block by inv
+		// before the honest peer does and never answers the getheaders this
+		// triggers.
+		p.ChainLen = 80
+		p.Checkpoints = nil
+		p.Preset = chaingen.PresetNoRetarget
+		p.Peers = []PeerPlan{{Kind: BHonest}, {Kind: BSquat}}
+		p.FirstPeer = 0
+		p.Announce = "inv"
+		p.Extend, p.ReorgDepth = 2, 0
+	}
 	if k == 8 {
 		// A fixed scenario: two peers that hang up within a millisecond of
 		// every handshake (the client redials them every 300 ms) while
@@ -222,6 +235,7 @@ type Built struct {
 	Trunk   []*chaingen.Node
 	Honest  []*netsim.Peer // peers serving the best chain correctly
 	Flaps   []*netsim.Peer
+	Squats  []*netsim.Peer
 	stopBg  chan struct{}
 	bgWg    sync.WaitGroup
 	Sampled atomic.Int64
@@ -304,6 +318,14 @@ func Build(p Plan) *Built {
 		case BFlap:
 			pr := w.AddPeer(tip)
 			b.Flaps = append(b.Flaps, pr)
+		case BSquat:
+			pr := w.AddPeer(tip)
+			pr.StartHeightOverride = 1 // not attractive as sync peer
+			pr.OnMsg = func(p *netsim.Peer, m wire.Message) bool {
+				_, isGetHeaders := m.(*wire.MsgGetHeaders)
+				return isGetHeaders // swallowed: never answered
+			}
+			b.Squats = append(b.Squats, pr)
 		case BBlink:
 			pr := w.AddPeer(tip)
 			pr.BlinkAfter = time.Millisecond
@@ -518,6 +540,15 @@ func (b *Built) WatchStable(n *chaingen.Node, d time.Duration) (string, int) {
 
 // SetHonestTip moves every honest peer to a new best tip and announces it.
 func (b *Built) SetHonestTip(n *chaingen.Node, announce string) {
+	for _, sq := range b.Squats {
+		sq.View.SetTip(n)
+		if sq.Conn() != nil {
+			sq.AnnounceInv(n)
+		}
+	}
+	if len(b.Squats) > 0 {
+		time.Sleep(3 * time.Millisecond) // the squatters' announcements arrive first
+	}
 	for _, hp := range b.Honest {
 		hp.View.SetTip(n)
 	}
@@ -616,7 +647,7 @@ func (p Plan) Describe() string {
 		cnt[k]++
 	}
 	s := ""
-	for _, k := range []string{BHonest, BTrickle, BBlink, BStale, BLighter, BInvalidHdr, BLiar + ":" + netsim.LieOmitScript, BLiar + ":" + netsim.LieWrongHash, BLiar + ":" + netsim.LieUnserved, BSilent, BGarbage, BFlap, BNoCF, BNoWitness} {
+	for _, k := range []string{BHonest, BTrickle, BBlink, BSquat, BStale, BLighter, BInvalidHdr, BLiar + ":" + netsim.LieOmitScript, BLiar + ":" + netsim.LieWrongHash, BLiar + ":" + netsim.LieUnserved, BSilent, BGarbage, BFlap, BNoCF, BNoWitness} {
 		if cnt[k] > 0 {
 			s += fmt.Sprintf("%s×%d ", k, cnt[k])
 		}
